@@ -84,7 +84,7 @@ func TestWorker(t *testing.T) {
 			sweepC03(t, enc, bw, rs, deadline)
 			continue
 		}
-		stop := watchdog(180*time.Second, fmt.Sprintf("run seed=%d", rs))
+		stop := watchdog(900*time.Second, fmt.Sprintf("run seed=%d", rs))
 		res := Run(t, rs, prof, nil, i < 2 || *fKeepAll)
 		stop()
 		if res.Infra != "" {
@@ -121,7 +121,7 @@ func TestReplay(t *testing.T) {
 	if err != nil {
 		t.Fatal(err)
 	}
-	stop := watchdog(300*time.Second, "replay")
+	stop := watchdog(1500*time.Second, "replay")
 	res := Run(t, rp.Seed, prof, nonNil(rp.Trace), true)
 	stop()
 	if *fLog {
@@ -172,7 +172,7 @@ func TestMinimise(t *testing.T) {
 		if time.Now().After(deadline) {
 			return false
 		}
-		stop := watchdog(300*time.Second, "minimise run")
+		stop := watchdog(1500*time.Second, "minimise run")
 		res := Run(t, rp.Seed, prof, nonNil(tr), false)
 		stop()
 		if res.Infra != "" {
@@ -245,7 +245,7 @@ func sweepC03(t *testing.T, enc *json.Encoder, bw *bufio.Writer, rs uint64, dead
 	if prof.Items > 12 {
 		prof.Items = 12
 	}
-	stop := watchdog(180*time.Second, fmt.Sprintf("sweep base seed=%d", rs))
+	stop := watchdog(900*time.Second, fmt.Sprintf("sweep base seed=%d", rs))
 	base := Run(t, rs, prof, nil, false)
 	stop()
 	enc.Encode(base)
@@ -256,7 +256,7 @@ func sweepC03(t *testing.T, enc *json.Encoder, bw *bufio.Writer, rs uint64, dead
 	for i := 1; i <= len(trace) && time.Now().Before(deadline); i++ {
 		for _, variant := range [][]int{nil, {0, 1, 2, 3, 4, 5, 6, 7}, {0}, {1}, {2}, {3}} {
 			tr := append(append([]core.Cmd(nil), trace[:i]...), core.Cmd{A: "crash", L: variant})
-			stop := watchdog(180*time.Second, fmt.Sprintf("sweep seed=%d at %d", rs, i))
+			stop := watchdog(900*time.Second, fmt.Sprintf("sweep seed=%d at %d", rs, i))
 			res := Run(t, rs, prof, tr, false)
 			stop()
 			res.ProfileTag = "sweep"
